@@ -118,7 +118,7 @@ def _loc(i, j=0):
 
 
 def gen_fiber(rng, uid, *, length=None, whole_km=False, allow_none_con=True, max_km=140, min_km=1.0,
-              per_freq_loss=False, lumped=False, dispersion_variants=False):
+              per_freq_loss=False, lumped=False, dispersion_variants=False, dup_lumped=False):
     if length is None:
         r = rng.random()
         if r < 0.1:
@@ -167,8 +167,10 @@ def gen_fiber(rng, uid, *, length=None, whole_km=False, allow_none_con=True, max
     if lumped and length > 3:
         n = rng.randint(1, 2)
         pos = sorted(rnd(rng, 0.1 * length, 0.9 * length, 3) for _ in range(n))
-        if n == 2 and rng.random() < 0.2:
-            pos[1] = pos[0]             # two losses declared at the same place (splice + connector)
+        if dup_lumped and n == 2 and rng.random() < 0.2:
+            # two losses declared at the same place (splice + connector); not expressible in the YANG format,
+            # where the position is the list key
+            pos[1] = pos[0]
         params['lumped_losses'] = [{'position': p, 'loss': pick(rng, [0.5, 1.0, 1.5, 0.3])} for p in pos]
     return {'uid': uid, 'type': 'Fiber', 'type_variety': pick(rng, FIBER_TYPES), 'params': params,
             'metadata': _loc(0, 0)}
@@ -223,7 +225,7 @@ def ingress_degree_uid(roadm_uid, prev_uid, typ):
 def gen_topology(rng, *, n_sites=None, max_sites=5, max_spans=3, whole_km=False, user_amps=True, fused=True,
                  max_km=140, extra_links=None, roadm_params=None, per_degree=False, lumped=False,
                  per_freq_loss=False, long_fibers=False, amp_varieties=None, roadm_variety=None,
-                 no_booster_fused=False, dispersion_variants=False):
+                 no_booster_fused=False, dispersion_variants=False, dup_lumped=False):
     """Random meshed topology in legacy JSON form. Both directions of each link are built independently
     (asymmetric lengths/losses). Returns (topology json, description)."""
     n = n_sites or rng.randint(2, max_sites)
@@ -266,7 +268,7 @@ def gen_topology(rng, *, n_sites=None, max_sites=5, max_spans=3, whole_km=False,
                     length = rnd(rng, 160, 420, 3)
                 f = gen_fiber(rng, fuid, length=length, whole_km=whole_km, max_km=max_km, lumped=lumped
                               and rng.random() < 0.3, per_freq_loss=per_freq_loss and rng.random() < 0.3,
-                              dispersion_variants=dispersion_variants)
+                              dispersion_variants=dispersion_variants, dup_lumped=dup_lumped)
                 chain.append(f)
                 info['fibers'].append(fuid)
                 if j < k - 1:
